@@ -13,6 +13,6 @@ PY
 [ $? = 0 ] || exit 9
 mkdir -p /tmp/mutout
 for id in "$@"; do
-  VERIF_OUT=/tmp/mutout VERIF_REPO=/tmp/mut /verif/check $id ${TIER:+--tier $TIER} | grep -E "^(VIOLATION|  monitor|\[C)" | head -${LINES_MAX:-7}
+  VERIF_OUT=/tmp/mutout VERIF_REPO=/tmp/mut /verif/check $id ${TIER:+--tier $TIER} | grep -E "^(VIOLATION|  monitor|\[C|HARNESS|Traceback|KNOWN)" | head -${LINES_MAX:-7}
 done
 git -C /tmp/mut checkout -q -- .
